@@ -106,6 +106,39 @@ def _unread_path(cfg: CFG, reset: T.Any, methods: T.Dict[str, ast.FunctionDef], 
     return None
 
 
+def _check_tail(ctx: RuleCtx, mod: T.Any, methods: T.Dict[str, ast.FunctionDef], primitive: str, own_flush: T.Dict[str, T.List[ast.AST]],
+                flush_helpers: T.Set[str]) -> None:
+    """A method that flushes the pending whitespace into the node it returns (an accumulating block, the node wrapper) must do so
+    after its last token-consuming call on every returning path: whatever the stream advance collected after the last flush would
+    otherwise stay pending when the method returns - at the end of input it is never attached to anything."""
+    cons = _consumers(methods, primitive)
+
+    def calls(e: T.Optional[ast.AST], names: T.Set[str]) -> T.List[ast.Call]:
+        return [c for c in (walk_no_nested(e) if e is not None else []) if isinstance(c, ast.Call) and (attr_chain(c.func) or '').startswith('self.')
+                and (attr_chain(c.func) or '').count('.') == 1 and (attr_chain(c.func) or '')[5:] in names]
+    n = 0
+    for name, fn in methods.items():
+        rets = [r for r in walk_no_nested(fn) if isinstance(r, ast.Return) and isinstance(r.value, ast.Name)]
+        via_helper = [c for c in walk_no_nested(fn) if isinstance(c, ast.Call) and (attr_chain(c.func) or '')[5:] in flush_helpers
+                      and (attr_chain(c.func) or '').startswith('self.') and c.args and rets and all(norm(c.args[0]) == r.value.id for r in rets)]  # type: ignore[union-attr]
+        if name not in own_flush and not via_helper:
+            continue
+        cfg = CFG(fn)
+        flushes = [nd for w in own_flush.get(name, []) for nd in cfg.stmt_nodes(w)] + [nd for c in via_helper for nd in cfg.node_containing(c)]
+        starts = [nd for nd in cfg.nodes if nd not in flushes and calls(nd.expr(), cons - flush_helpers)]
+        n += 1
+        bad = [st for st in starts if cfg.exit_return.id in cfg.reachable([st], avoid=flushes, edge_ok=lambda a, b, lab: lab != 'exc')]
+        qn = f'Parser.{name}'
+        if bad:
+            c0 = calls(bad[0].expr(), cons - flush_helpers)[0]
+            ctx.violation(mod, qn, c0, f'after the token-consuming call `{short(c0)}` the method can return without flushing the pending-whitespace buffer '
+                          f'into the node it returns (it does flush it elsewhere): whitespace/comments collected by that call stay pending, '
+                          f'and at the end of the input they are never attached to the tree', c0)
+        else:
+            ctx.ok(f'{qn}: every returning path flushes the buffer after its last of {len(starts)} token-consuming statements')
+    ctx.note(f'{n} method(s) flush the buffer into the node they return')
+
+
 def check_keepers(ctx: RuleCtx, model: NodeModel) -> None:
     """Every path of every append_whitespaces (and of WhitespaceNode's accumulator) keeps the token text."""
     mod = model.mod
@@ -149,6 +182,8 @@ def check_buffer(ctx: RuleCtx, model: NodeModel, primitive: str, wrapper: str) -
     mod = model.mod
     methods = mod.methods('Parser')
     resets = slices = 0
+    own_flush: T.Dict[str, T.List[ast.AST]] = {}     # method -> reset statements that flush into its returned local
+    flush_helpers: T.Set[str] = set()               # methods that flush into a parameter
     resetters: T.Set[str] = set()
     for name, fn in methods.items():
         for st in walk_no_nested(fn):
@@ -209,6 +244,10 @@ def check_buffer(ctx: RuleCtx, model: NodeModel, primitive: str, wrapper: str) -
                         # the receiving node is returned by this function; when it is a parameter (flush helper), by every caller
                         bad = _returned_by(methods, name, x, 0)
                         if x in params_of(fn)[1:]:
+                            flush_helpers.add(name)
+                        elif not bad:
+                            own_flush.setdefault(name, []).append(w)
+                        if x in params_of(fn)[1:]:
                             # a flush helper: every call of it is a flush point
                             resets += sum(1 for cfn in methods.values() for c in walk_no_nested(cfn)
                                           if isinstance(c, ast.Call) and attr_chain(c.func) == f'self.{name}') - 1
@@ -223,7 +262,8 @@ def check_buffer(ctx: RuleCtx, model: NodeModel, primitive: str, wrapper: str) -
                 _check_slice(ctx, model, fn, qn, cfg, w, val.slice.lower.args[0].id, resetters)
             else:
                 raise Undecided(f'{qn}: buffer assignment `{short(w)}` is neither a reset nor a prefix slice')
-    ctx.floor('buffer flush points (resets, or calls of a flush helper)', resets, 3)
+    _check_tail(ctx, mod, methods, primitive, own_flush, flush_helpers)
+    ctx.floor('buffer flush points (resets, or calls of a flush helper)', resets, 1)
     ctx.floor('buffer prefix slices', slices, 1)
     ctx.note(f'methods that may reset the buffer: {sorted(resetters)}')
 
